@@ -129,7 +129,8 @@ void ldb_mutex_lock(ldb_mutex_t *m) {
   yield_point();
   acquire_loop(m);
   pthread_mutex_unlock(&G);
-  t_nsig = 0;
+  /* the signal record is cleared by the harness when the mutex it watches is acquired (not by locks of other mutexes
+     taken inside that critical section, such as the thread pool's) */
   if (sched_acquire_hook) sched_acquire_hook(m);
 }
 
@@ -166,7 +167,8 @@ void ldb_cond_wait(ldb_cond_t *c, ldb_mutex_t *m) {
   pick_next(); wait_turn();
   acquire_loop(m);
   pthread_mutex_unlock(&G);
-  t_nsig = 0;
+  /* the signal record is cleared by the harness when the mutex it watches is acquired (not by locks of other mutexes
+     taken inside that critical section, such as the thread pool's) */
   if (sched_acquire_hook) sched_acquire_hook(m);
 }
 
